@@ -14,7 +14,7 @@ import (
 
 func init() {
 	Register("C12", "Decides, on tables extracted from formats/json by specialising every scanner state function for each of the 256 byte values: (struct) the scanner, modelled as the pushdown system <step function, unfinished-literal flag, lexeme stack, return stack> with its end-of-input table and pair tables also extracted from the source, accepts exactly the RFC 8259 grammar - lock-step product with a reference pushdown recogniser over all bytes and all configurations up to nesting depth 3 (the scanner only observes len==0, len==1 and the two topmost stack entries, which is itself checked, so deeper nesting adds no new behaviour), with and without the trailing-characters option; (pairs) every closing lexeme a state can emit has exactly one opening partner; (eofcons) a literal state accepts end of input iff it accepts a terminator; (deleg) the re-dispatch relation between states is acyclic for every byte. (len) the arithmetic of Length(): candidate = End()+1 after a lexeme, = End() at the EndTop lexeme, then exactly SP/TAB/LF/CR dropped. Does NOT decide lexeme spans or tree equality with an independent decoder.",
-		c12struct, c12pairs, c12len, rewindRule("C12.rewind"), ctorOrderRule("C12.ctor"), asciiBlankRule("C12.asciiblank"), stackRule("C12.stack"), noLimitRule("C12.nolimit"))
+		c12struct, c12pairs, c12len, rewindRule("C12.rewind"), ctorOrderRule("C12.ctor"), asciiBlankRule("C12.asciiblank"), stackRule("C12.stack"), func(c *core.Ctx) { c11onceAs(c, "C12.once") }, noLimitRule("C12.nolimit"))
 }
 
 // ---------------- extracted driver tables ----------------
